@@ -84,17 +84,20 @@ class _Interner:
                 return lambda out, uf=uf, args=args: uf(*(list(args) + [smt.z(o) for o in out]))
         sig = _uf_signature(core_term)
         tried = 0
-        for ck, it, ia, uf in (tab if len(tab) <= 6 else []):
+        for ck, it, ia, uf in (tab if (len(tab) <= 6 and not _NO_SEMANTIC) else []):
             if _uf_signature(it) != sig:
                 continue  # cheap necessary condition: same uninterpreted function symbols
             key = (it.get_id(), core_term.get_id(), len(e.pc), len(e.hyps))
             res = self.neg.get(key)
             if res is None:
                 if tried >= 3:
+                    e.tainted = True  # candidates left uncompared: a later counter-model may be an artefact
                     break  # semantic matching is a completeness aid only: bounded effort
                 tried += 1
                 st, _ = engine.check_sat(e.pc + e.hyps + list(rng) + [it != core_term], timeout_ms=800, try_abstract=False)
                 res = st == "unsat"
+                if st == "unknown":
+                    e.tainted = True
                 self.neg[key] = res
             if res:
                 return lambda out, uf=uf, ia=ia: uf(*(list(ia) + [smt.z(o) for o in out]))
@@ -112,6 +115,9 @@ class _Interner:
         return lambda out, uf=uf, args=args: uf(*(list(args) + [smt.z(o) for o in out]))
 
 
+import os as _os  # noqa: E402
+
+_NO_SEMANTIC = bool(_os.environ.get("SYMJNP_NO_SEMANTIC"))  # debugging aid: syntactic interning only
 _SIG_CACHE = {}
 
 
@@ -163,7 +169,9 @@ def _canonical(term, bound_ids):
         visited.add(i)
         if z3.is_app(x):
             if x.num_args() == 0:
-                if x.decl().kind() == z3.Z3_OP_UNINTERPRETED and i not in bound_ids and i not in seen:
+                # only index-like constants (fresh element indices, vmap / scan indices, outer bound variables) become
+                # explicit arguments; named harness symbols (N, L, dt, ...) stay in the core under their own names
+                if x.decl().kind() == z3.Z3_OP_UNINTERPRETED and i not in bound_ids and i not in seen and poly.is_indexlike(x.decl().name()):
                     seen.add(i)
                     order.append(x)
             else:
@@ -259,6 +267,14 @@ def linear_apply(opname, opparams, A, t_axes, family, out_extra):
         for core in sorted(parts):
             coefp = parts[core]
             core_term = poly.rebuild_mono(core, canonical=True)
+            if core_term is None and opname == "SUM":
+                # SUM of the constant 1 over the reduced axes = the number of entries (exact)
+                cnt = 1
+                for sz in sizes:
+                    cnt = smt.rmul(cnt, sz)
+                c0 = smt.norm(poly.rebuild(parts[core]))
+                acc = smt.radd(acc, smt.rmul(c0, cnt))
+                continue
             if core_term is None:
                 core_term = z3.RealVal(1)
             app = it.get((opname, keyparams), core_term, bv, len(out_idx), e, rng)
@@ -294,9 +310,15 @@ def rfftn(x, s=None, axes=None, norm=None):
     gim = linear_apply(name + "im", (), X, axes, "X", None)
     b_axes = [ax for ax in range(X.ndim) if ax not in axes]
 
+    gsum = linear_apply("SUM", (), X, axes, "S", None)
+
     def fn(idx):
         b = tuple(idx[ax] for ax in b_axes)
         k = tuple(idx[ax] for ax in axes)
+        if all(isinstance(j, int) and j == 0 for j in k):
+            # A5 instance: the mean mode of the (unnormalised) rfftn is the sum over all points (and is real)
+            _u("A5: rfftn(x)[0,...,0] = sum(x) (real)")
+            return CX(gsum(b, ()), 0)
         return CX(gre(b, k), gim(b, k))
     res = SArr(out_shape, fn, "complex")
     res.cong = (name, axes, (), X)   # provenance for the congruence rule  F(a) == F(b)  <==  a == b
@@ -385,7 +407,14 @@ def _reduce_symbolic(op, A, axes, keepdims, where_):
         return SArr(out_shape, lambda i: smt.rdiv(g(batch_of(i), ()), cnt), "real")
     if op in ("max", "min"):
         _u("jnp.max/min over symbolic-length axes = MAX/MIN (opaque aggregate with the bound facts instantiated on demand)")
-        g = aggregate_apply(op.upper(), A, tuple(axes))
+        ones = [ax for ax in axes if values.is_one(A.shape[ax])]
+        if ones and len(ones) < len(axes):
+            keep_axes = [ax for ax in range(A.ndim) if ax not in ones]
+            sq = SArr(tuple(A.shape[ax] for ax in keep_axes),
+                      (lambda idx: A.at_(tuple(0 if ax in ones else idx[keep_axes.index(ax)] for ax in range(A.ndim)))), A.kind)
+            g = aggregate_apply(op.upper(), sq, tuple(keep_axes.index(ax) for ax in axes if ax not in ones))
+        else:
+            g = aggregate_apply(op.upper(), A, tuple(axes))
         return SArr(out_shape, lambda i: g(batch_of(i)), "real")
     raise OutsideSubset(f"{op} over symbolic axis")
 
@@ -405,7 +434,10 @@ def aggregate_apply(opname, A, t_axes):
             full.append(bv[t_axes.index(ax)] if ax in t_axes else next(bi))
         with engine.no_div_guard(), nested("S"):
             t = smt.zr(smt.R(values.coerce(A.at_(tuple(full)), "real")))
-        t = z3.simplify(t)
+        try:
+            t = poly.rebuild(poly.poly(t))   # canonical (ring normal) form of the element function
+        except poly.PolyTooLarge:
+            t = z3.simplify(t)
         sizes = tuple(dim_term(A.shape[ax]) for ax in t_axes)
         keyparams = size_key(e, sizes)
         app = interner(e).get((opname, keyparams), t, bv, 0, e)
@@ -434,10 +466,16 @@ def opaque_apply(opname, A, extra_key=()):
                 el = A.at_(tuple(bv))
         finally:
             del e.hyps[len(e.hyps) - len(rng):]
+        def canon_(x):
+            x = smt.zr(x)
+            try:
+                return poly.rebuild(poly.poly(x))
+            except poly.PolyTooLarge:
+                return x
         if isinstance(el, CX):
-            t = PAIR(smt.zr(el.re), smt.zr(el.im))
+            t = PAIR(canon_(el.re), canon_(el.im))
         else:
-            t = smt.zr(smt.R(el))
+            t = canon_(smt.R(el))
         keyparams = size_key(e, sizes) + tuple(extra_key)
         app = interner(e).get((opname, keyparams), t, bv, len(out_idx), e, rng)
         return app(out_idx)
